@@ -70,7 +70,7 @@ CHECKS = {
              "and level) and both failure kinds are injected; the solver-call event log is checked against the retry "
              "rule and the returned tables are compared with the fault-free run.",
         note="Trusted: injection at the elexsolver boundary represents real solver failures; the known finding for "
-             "lambda_>0 is listed in KNOWN_FINDINGS.json.",
+             "lambda_>0 and for weight ratios below 1e-5 are listed in KNOWN_FINDINGS.json.",
         ref="DESIGN.md section 6 C20",
     ),
     "C04": dict(
